@@ -45,7 +45,8 @@ def exc_class(name):
         return lazy_dataset.FilterException
     return {'VErrA': VErrA, 'VErrB': VErrB, 'VErrC': VErrC, 'VBase': VBase, 'VFalsy': VFalsy, 'Exception': Exception,
             'ValueError': ValueError, 'LookupError': LookupError, 'KeyError': KeyError,
-            'IndexError': IndexError}[name]
+            'IndexError': IndexError, 'OSError': OSError, 'FileNotFoundError': FileNotFoundError,
+            'NotImplementedError': NotImplementedError}[name]
 
 
 # ---------------------------------------------------------------------------------------------------------------------
